@@ -68,8 +68,17 @@ def r17a(ctx):
     # re-insertion only while overlapping
     adds = [c for c in walk_no_nested(f.node) if isinstance(c, ast.Call) and isinstance(c.func, ast.Attribute)
             and c.func.attr == "add" and dotted(c.func.value) == "tree" and c.lineno > w.lineno]
-    ok = adds and all(any(pol and "tree.overlaps" in ast.unparse(t) for t, pol in flatten_conditions(dominating_conditions(c)))
-                      for c in adds)
+    def only_overlap_guard(c):
+        # the add must sit directly in `if tree.overlaps(<its own begin, end>):` with no further condition
+        p_ = parent(c)
+        while p_ is not None and not isinstance(p_, ast.If):
+            p_ = parent(p_)
+        if p_ is None:
+            return False
+        t = p_.test
+        return isinstance(t, ast.Call) and isinstance(t.func, ast.Attribute) and t.func.attr == "overlaps" \
+            and dotted(t.func.value) == "tree" and p_.lineno > w.lineno
+    ok = adds and all(only_overlap_guard(c) for c in adds)
     if ok and len(adds) == 2:
         ctx.proved("R17a", f.file, "make_distinct", adds[0], "re-insert only if overlapping",
                    "each refined interval goes back into the tree only if it still overlaps another interval")
@@ -113,6 +122,17 @@ def r17b(ctx):
                       "tighten_bounds may return a non-boolean: " + "; ".join(probs))
     else:
         ctx.proved("R17b", fl, "IterativeTighteningSearch.tighten_bounds", tb.node, "boolean on all paths", "every path returns an expression")
+    for r in walk_no_nested(tb.node):
+        if isinstance(r, ast.Return) and isinstance(r.value, ast.Constant) and r.value.value is False:
+            facts = [nrm(t) for t, pol in flatten_conditions(dominating_conditions(r)) if pol]
+            if "self._unprocessedisNone" in facts:
+                ctx.proved("R17b", fl, "IterativeTighteningSearch.tighten_bounds", r, "no-progress only when exhausted",
+                           "`return False` only after every candidate has been read from the iterator")
+            else:
+                ctx.violation("R17b", fl, "IterativeTighteningSearch.tighten_bounds", r, "no-progress only when exhausted",
+                              f"`return False` under {facts}: the search can report 'no progress' while candidates are still "
+                              f"unread (e.g. when the first candidates are already single-valued), so it ends without a result "
+                              f"or with a non-minimal one")
     for name, want in (("best_match", "None"), ("remove_best", "None"), ("goal_test", "False")):
         f = m.method(q, name)
         first = next((s for s in f.node.body if isinstance(s, ast.If)), None)
